@@ -66,6 +66,18 @@ FIXED = [
      "`def 0 { a(Position<'m', -.5, 1>); }` raised ValueError (invalid literal for int(): '-') while the spellings `-0.5` and `-00.5` of the same decimal compile (one of the 8 hand-written spelling groups; pointed out by a sub-agent as an observation on the unchanged tree)"),
     ("C02", "fix: conditions and bit assignments were written in a form that compiles to another op or parameter",
      "[pre, BranchDebug 2 -> End, a, End] decompiled to `if not ( debug )` (recompiles with parameter 1); [BranchPerformance 3 -1 ..] likewise; [flag_CalcBit $PERFORMANCE_PROGRESS_LIST 3 1] decompiled to `$PERFORMANCE_PROGRESS_LIST[3] = 1;` (recompiles to flag_SetPerformance), BranchBit on that list to the spelling of BranchPerformance (16 of the 35 sets of family V; pointed out by a sub-agent as an observation on the unchanged tree)"),
+    ("C01", "fix: the jump behind a label that is only jumped to from another routine was removed as unreachable",
+     "`def 0 { r0_a(); jump @X; } def 1 { return; @X; jump @E; r1_skipped(); @E; }` compiled routine 1 to [Return, r1_skipped]: routine 0 ran r1_skipped() instead of stopping (12 of the 180 G-cross programs: jump / call / conditional jump x a `return` or `hold` in front of the label; pointed out by a sub-agent as an observation on the unchanged tree)"),
+    ("C05", "fix: imports of names that start with a dot were taken for relative paths, imports of directories raised IsADirectoryError",
+     "`import \".hidden/lib.exps\";` with the file under the second lookup path was resolved against the importing file (wrong file / not found); `import \"./sub\";` where sub is a directory raised IsADirectoryError (5 of the 34 import cases once names with a leading dot and directories were added; pointed out by sub-agents)"),
+    ("C10", "fix: SsbScript texts could raise IndexError, TypeError or AttributeError",
+     "`//?: is-ssb-script: true` + `def 0 for { a(); }` (TypeError), `def 0 { a({}); }` (AttributeError), `def -1 { a(); }` (IndexError): 12 of the single-token corruptions of two SsbScript texts"),
+    ("C10", "fix: routines in an imported SsbScript file were accepted",
+     "an imported file that starts with the is-ssb-script marker and contains `def 0 { .. }` was accepted, its routines dropped"),
+    ("C10", "fix: deeply nested scripts raised RecursionError, and only if nothing had been decompiled before",
+     "`def 0 { if (debug) { ` x 121 (also forever / switch) raised RecursionError; with the decompiler imported the limit was 10000 and the text compiled: the result depended on the history of the process (C11)"),
+    ("C10", "fix: a jump or call to an undefined label was accepted in a macro that is never called",
+     "`macro m() { a(); jump @nowhere; } def 0 { b(); }` compiled and produced output"),
     ("C02", "fix: dungeon mode values other than 0..3 were printed as the 'closed' constant",
      "`switch (dungeon_mode(D)) { case DMODE_OPEN: .. }` (or any constant / other number as case value or flag_SetDungeonMode value) decompiled to `case DMODE_CLOSE:` (476 of 55k inputs under seed rotation 2)"),
     ("C09", "fix: inserted break_loop/continue statements overwrote the source map entry of the op before them",
